@@ -615,49 +615,52 @@ class Randomizer(RandIF):
         bounds_v = VariableBoundVisitor()
         bounds_v.process(field_model_l, constraint_l, False)
 
-        # TODO: need to handle inline constraints that impact arrays
-        constraints_len = len(constraint_l)
-        for fm in field_model_l:
-            constraint_l.extend(ArrayConstraintBuilder.build(
-                fm, bounds_v.bound_m))
-            # Now, handle dist constraints
-            DistConstraintBuilder.build(randstate, fm)
-            
-        for c in constraint_l:
-            constraint_l.extend(ArrayConstraintBuilder.build(
-                c, bounds_v.bound_m))
-            # Now, handle dist constraints
-            DistConstraintBuilder.build(randstate, c)
-
-        # If we made changes during array remodeling,
-        # re-run bounds checking on the updated model
-#        if len(constraint_l) != constraints_len:
-        bounds_v.process(field_model_l, constraint_l)
-
-        if debug > 0:
-            print("Final Model:")        
-            for fm in field_model_l:
-                print("  " + ModelPrettyPrinter.print(fm))
-            for c in constraint_l:
-                print("  " + ModelPrettyPrinter.print(c, show_exp=True))
-
-#        if lint > 0:
-#            LintVisitor().lint(
-#                field_model_l,
-#                constraint_l)
-            
-
-        r = Randomizer(
-            randstate,
-            solve_info=solve_info,
-            debug=debug, 
-            lint=lint, 
-            solve_fail_debug=solve_fail_debug)
-#        if Randomizer._rng is None:
-#            Randomizer._rng = random.Random(random.randrange(sys.maxsize))
-        ri = RandInfoBuilder.build(field_model_l, constraint_l, Randomizer._rng)
-        
+        # Array and dist constraints are re-modelled for the duration of 
+        # this call. Whatever happens from here on, the re-modelling is 
+        # rolled back
         try:
+            # TODO: need to handle inline constraints that impact arrays
+            constraints_len = len(constraint_l)
+            for fm in field_model_l:
+                constraint_l.extend(ArrayConstraintBuilder.build(
+                    fm, bounds_v.bound_m))
+                # Now, handle dist constraints
+                DistConstraintBuilder.build(randstate, fm)
+            
+            for c in constraint_l:
+                constraint_l.extend(ArrayConstraintBuilder.build(
+                    c, bounds_v.bound_m))
+                # Now, handle dist constraints
+                DistConstraintBuilder.build(randstate, c)
+
+            # If we made changes during array remodeling,
+            # re-run bounds checking on the updated model
+#            if len(constraint_l) != constraints_len:
+            bounds_v.process(field_model_l, constraint_l)
+
+            if debug > 0:
+                print("Final Model:")        
+                for fm in field_model_l:
+                    print("  " + ModelPrettyPrinter.print(fm))
+                for c in constraint_l:
+                    print("  " + ModelPrettyPrinter.print(c, show_exp=True))
+
+#            if lint > 0:
+#                LintVisitor().lint(
+#                    field_model_l,
+#                    constraint_l)
+            
+
+            r = Randomizer(
+                randstate,
+                solve_info=solve_info,
+                debug=debug, 
+                lint=lint, 
+                solve_fail_debug=solve_fail_debug)
+#            if Randomizer._rng is None:
+#                Randomizer._rng = random.Random(random.randrange(sys.maxsize))
+            ri = RandInfoBuilder.build(field_model_l, constraint_l, Randomizer._rng)
+        
             r.randomize(ri, bounds_v.bound_m)
         finally:
             # Rollback any constraints we've replaced for arrays
